@@ -396,6 +396,36 @@ def std_auto_table():
     return _STD_AUTO
 
 
+DEFSPEC_FNS = {}
+
+
+def defspec_candidate(file, name):
+    """is `fn name` in `file` a small pure predicate whose body can be read as its own specification? (no receiver, parameters of
+    primitive types by value, body one expression built from comparisons, boolean/arithmetic operators, literals and the parameters)"""
+    try:
+        src = open(os.path.join(REPO, file)).read()
+    except OSError:
+        return False
+    m = re.search(r"\bfn\s+" + re.escape(name) + r"\s*\(([^)]*)\)\s*->\s*([\w:]+)\s*\{", src)
+    if not m:
+        return False
+    params, ret = m.group(1), m.group(2)
+    prim = r"(?:bool|char|u8|u16|u32|u64|usize|i8|i16|i32|i64|isize)"
+    if "self" in params or not re.fullmatch(prim, ret):
+        return False
+    for prm in [x.strip() for x in params.split(",") if x.strip()]:
+        if not re.fullmatch(r"\w+\s*:\s*" + prim, prm):
+            return False
+    depth, i = 1, m.end()
+    while i < len(src) and depth:
+        depth += {"{": 1, "}": -1}.get(src[i], 0)
+        i += 1
+    body = re.sub(r"//[^\n]*", "", src[m.end():i - 1]).strip()
+    if ";" in body or "{" in body or re.search(r"[A-Za-z_]\w*\s*\(", body) or re.search(r"\.\s*[A-Za-z_]", body):
+        return False
+    return bool(re.fullmatch(r"[\w\s'\\(),|&=!<>+\-*/%]*", body)) and len(body) < 400
+
+
 def auto_stub_text(res, unit=None):
     """From rustc's 'no method named X found for T' diagnostics, build contract-free stubs whose signatures are copied
     from the crate (DESIGN 2.1 'stub closure'): a function under contract that starts calling something new is then
@@ -408,6 +438,8 @@ def auto_stub_text(res, unit=None):
         m = MISSING_METHOD.search(msg)
         if m:
             name, ty = m.group(1), base_type(m.group(2))
+            # a type with one lifetime parameter (`JsonTokenizer<'_>`): the impl block of the stub repeats it
+            impl_hdr = f"impl<'vxa> {ty}<'vxa>" if re.search(r"<\s*'[\w_]+\s*>", m.group(2)) else f"impl {ty}"
             src_ty = (reverse_typemap(unit) if unit else {}).get(ty, ty)
             rc, o, e = sh([VX, "locate", "--repo", REPO, "--type", src_ty, "--fn", name])
             hits = [l.split("\t") for l in o.splitlines() if l.strip()]
@@ -415,8 +447,13 @@ def auto_stub_text(res, unit=None):
             if len(hits) >= 1 and (ty, name) not in seen:
                 seen.add((ty, name))
                 if exists_at_baseline(hits[0][0], name) is False:
+                    if defspec_candidate(hits[0][0], name):
+                        # a new pure predicate: brought in with its body and a definitional contract (verified, nothing assumed)
+                        DEFSPEC_FNS.setdefault(unit, set()).add(name)
+                        pieces.append(f"{impl_hdr} {{\n    //@fn {hits[0][0]} {src_ty}::{name} defspec\n    //@end\n}}")
+                        continue
                     NEW_CALLEES.setdefault(unit, set()).add(name)
-                pieces.append(f"impl {ty} {{\n    #[verifier::external_body]\n    //@fn {hits[0][0]} {src_ty}::{name} sigonly\n    //@end\n}}")
+                pieces.append(f"{impl_hdr} {{\n    #[verifier::external_body]\n    //@fn {hits[0][0]} {src_ty}::{name} sigonly\n    //@end\n}}")
             continue
         m = MISSING_FN.search(msg)
         if m:
@@ -426,6 +463,10 @@ def auto_stub_text(res, unit=None):
             if len(hits) == 1 and ("", name) not in seen:
                 seen.add(("", name))
                 if exists_at_baseline(hits[0][0], name) is False:
+                    if defspec_candidate(hits[0][0], name):
+                        DEFSPEC_FNS.setdefault(unit, set()).add(name)
+                        pieces.append(f"//@fn {hits[0][0]} ::{name} defspec\n//@end")
+                        continue
                     NEW_CALLEES.setdefault(unit, set()).add(name)
                 pieces.append(f"#[verifier::external_body]\n//@fn {hits[0][0]} ::{name} sigonly\n//@end")
             continue
